@@ -179,7 +179,10 @@ def run(chk):
     stmts = ["nop", "asl", "lsr", "rol", "ror", "lda #1", "lda $10", "lda $1234", "lda $10,x", "lda $1234,y", "lda ($10,x)",
              "lda ($10),y", "jmp ($1234)", "jmp $1234", "asl $10", "lsr $10,x", "ror $1234", "sta $d020", "beq *", ".byte 1,2",
              ".word $1234", ".dword 1", ".text \"hi\"", "lab{n}:", "lab{n}: nop", "{ nop }", "lab{n}: { inx }", ".const c{n} = 1",
-             ".var v{n} = 2", "m()", "m2(1, 2)", ".if 1 { nop }", ".if 0 { nop } else { iny }", ".loop 2 { nop }", "-1 + 2"]
+             ".var v{n} = 2", "m()", "m2(1, 2)", ".if 1 { nop }", ".if 0 { nop } else { iny }", ".loop 2 { nop }",
+             # statements that emit nothing themselves; the instruction next to them must still assemble to the same bytes
+             "* = $c100", "* = * + 0", ".assert 1 == 1", ".trace", ".trace (1)", ".segment \"default\"", ".segment \"default\" { nop }",
+             ".macro mm{n}(a) { .byte a }", ".text petscii \"a\"", "-1 + 2"]
     stmts = [s for s in stmts if s != "-1 + 2"]
     prelude = ".macro m() { inx }\n.macro m2(a, b) { .byte a, b }\n"
     seps = ["\n", "\n\n", "\n// comment\n", "\n/* c */\n", " /* c */\n"] if thorough else ["\n", "\n\n", "\n// comment\n", "\n/* c */\n"]
